@@ -99,6 +99,11 @@ func cloneContext(src *ReceiveContext) *ReceiveContext {
 	dst.sender = src.sender
 	dst.self = src.self
 	dst.response = src.response
+	// the pooled context keeps the responseClosed flag of its previous life (an
+	// answered Ask leaves it set, reset() deliberately does not clear it): the
+	// clone must carry the flag of the message it stands for, or the reply of a
+	// stashed Ask is dropped when the message is handled on re-delivery
+	dst.responseClosed.Store(src.responseClosed.Load())
 	dst.requestID = src.requestID
 	dst.requestReplyTo = src.requestReplyTo
 	dst.err = src.err
